@@ -59,10 +59,13 @@ static void workload(int w) {
   else if (w == 3) { hold(mi_malloc_aligned(1000, (size_t)64 << 20), 1000); hold(mi_malloc_aligned_at(5000000, (size_t)32 << 20, 4096), 5000000); hold(mi_malloc_aligned((size_t)70 << 20, (size_t)16 << 20), 4096);
                      hold(mi_malloc_aligned_at(100000, (size_t)128 << 20, 64), 100000); }
   else {
-    pthread_t th[4]; void* res[4];
-    for (int t = 0; t < 4; t++) pthread_create(&th[t], NULL, &thread_body, (void*)(uintptr_t)(t + 1 + rnd() % 1000));
-    for (int t = 0; t < 4; t++) pthread_join(th[t], &res[t]);
-    for (int t = 0; t < 4; t++) { void** keep = (void**)res[t]; for (int i = 0; i < 100; i++) mi_free(keep[i]); mi_free(keep); }
+    // several waves of short-lived threads: later waves re-use cached thread metadata, the forced collect releases the cache
+    for (int wave = 0; wave < 3; wave++) {
+      pthread_t th[6]; void* res[6];
+      for (int t = 0; t < 6; t++) pthread_create(&th[t], NULL, &thread_body, (void*)(uintptr_t)(t + 1 + rnd() % 1000));
+      for (int t = 0; t < 6; t++) pthread_join(th[t], &res[t]);
+      for (int t = 0; t < 6; t++) { void** keep = (void**)res[t]; for (int i = 0; i < 100; i++) mi_free(keep[i]); mi_free(keep); }
+    }
     for (int i = 0; i < 40; i++) { size_t n = 100000 + (size_t)(rnd() % 800000); hold(mi_malloc(n), n); }
   }
   for (int i = 0; i < nblocks; i++) if (blocks[i].p[0] != 0x5A) FAIL("block_content", "block %d", i);
